@@ -41,6 +41,8 @@ type e4Config struct {
 	PingDelayMs int `json:"pingDelayMs,omitempty"`
 	// OnErrorCalls: the OnError callback reads the client's statistics and current BaseClient (an application logging them)
 	OnErrorCalls bool `json:"onErrorCalls,omitempty"`
+	// RepeatPubrec: the broker repeats the PUBREC of unfinished QoS2 exchanges right behind the CONNACK of a resumed session
+	RepeatPubrec bool `json:"repeatPubrec,omitempty"`
 	// AppPingShortN > 0: right after Connect returned the application pings that many times itself, each with a 1 ms
 	// deadline (with a slow broker these give up before the PINGRESP arrives: the answers come late)
 	AppPingShortN int `json:"appPingShortN,omitempty"`
@@ -440,6 +442,7 @@ func e4RunBody(c e4Case, started chan<- *e4Env) (res *e4Result) {
 	b := newVBroker(log, c.Cfg.SessionKept, c.Cfg.MethodB, c.Faults)
 	b.grantMax = c.Cfg.GrantMax
 	b.pingDelay = time.Duration(c.Cfg.PingDelayMs) * time.Millisecond
+	b.repeatPubrec = c.Cfg.RepeatPubrec
 	d := &vdialer{b: b, maxRead: c.Cfg.MaxRead}
 	d.maxPayload = c.Cfg.MaxPayload
 	if c.Cfg.Transport != 0 {
@@ -1186,7 +1189,7 @@ func e4GenFaults(rt *rapid.T, o e4GenOpts) []e4Fault {
 			f.Nth = rapid.SampledFrom([]int{1, 1, 1, 2, 2, 3}).Draw(rt, "nth")
 			f.After = rapid.Bool().Draw(rt, "after")
 		case "refuse":
-			f.Code = rapid.IntRange(1, 5).Draw(rt, "code")
+			f.Code = rapid.SampledFrom([]int{1, 2, 3, 4, 5, 6, 0x84, 255}).Draw(rt, "code")
 		case "dialErr":
 			f.Code = rapid.SampledFrom([]int{0, 0, 1, 2}).Draw(rt, "dialErrKind") // 1, 2: a context error in the chain
 		case "garbage", "goSilent", "closeAfter":
@@ -1227,6 +1230,7 @@ func e4GenConfig(rt *rapid.T) e4Config {
 		DirectQoS0:      rapid.IntRange(0, 3).Draw(rt, "directQoS0") == 0,
 		OnErrorCalls:    rapid.IntRange(0, 2).Draw(rt, "onErrorCalls") == 0,
 		StateCalls:      rapid.IntRange(0, 2).Draw(rt, "stateCalls") == 0,
+		RepeatPubrec:    rapid.IntRange(0, 2).Draw(rt, "repeatPubrec") == 0,
 		CancelSubmitCtx: rapid.IntRange(0, 2).Draw(rt, "cancelSubmitCtx") == 0,
 		Transport:       rapid.SampledFrom([]int{0, 0, 1, 2, 3, 4, 5, 7}).Draw(rt, "transport"),
 	}
